@@ -296,3 +296,14 @@ Proof.
     repeat (apply Forall_cons || apply Forall_nil); cbn [snd]; assumption.
 Qed.
 End Avail.
+
+Theorem url_exact_unconstrained_registry_refuted :
+  exists (avail valid_registry : str -> bool) r,
+    wf_ref avail valid_registry r /\ r_reference r <> [] /\
+    url_split (url_manifest false r)
+    = Some (mkParts (b "https") (b "h") [] (Some (b "x")) (Some (b "y/v2/a/manifests/t"))).
+Proof.
+  exists (fun _ => true), (fun _ => true), (mkRef (b "h?x#y") (b "a") (b "t")).
+  unfold wf_ref, ok_registry. repeat split; try (vm_compute; reflexivity); try discriminate.
+  right. left. vm_compute. reflexivity.
+Qed.
